@@ -241,13 +241,14 @@ Lemma step_stats cfg e w o :
   | None => amounts (w_o (fst (step cfg e w o))) = amounts (w_o w) /\ counts (w_o (fst (step cfg e w o))) = counts (w_o w)
   end.
 Proof.
-  destruct o as [p tape lie|signer m tape|to d a|sf st sd sa|q| | | |p2 tape2 lie2 k2]; cbn [step fst snd].
+  destruct o as [p tape lie|signer m tape|to d a|sf st sd sa|mv|q| | | |p2 tape2 lie2 k2]; cbn [step fst snd].
   - cbn [out_stat]. destruct (outcome_eq_ok (rr_out (recv_lie cfg e w p tape lie))) as [E|E].
     + destruct (recv_records_lie _ _ _ _ _ _ E) as (r & Hr & _ & _ & _ & _ & _ & _ & Hrec). rewrite Hr. exact Hrec.
     + destruct (recv_no_record_lie _ _ _ _ _ _ E) as [Ho Hs]. rewrite Hs, Ho. split; reflexivity.
   - destruct (step_msg_out cfg w signer m tape) as (c & tr & Hx). rewrite Hx. cbn [out_stat]. apply step_msg_stats.
   - cbn [out_stat]. split; reflexivity.
   - destruct (_ || _ || _); cbn [out_stat fst snd w_o]; split; reflexivity.
+  - cbn [out_stat]. split; reflexivity.
   - cbn [out_stat]. split; reflexivity.
   - cbn [out_stat]. split; reflexivity.
   - cbn [out_stat]. split; reflexivity.
